@@ -258,6 +258,7 @@ impl PairModel {
                 }
             }
             // ---- the acting arena's trace
+            let canon = unsafe { (*envp).reuse_exact };
             let s = &mut slots[who];
             s.steps += 1;
             s.trace.u(oc);
@@ -270,11 +271,11 @@ impl PairModel {
                     s.trace.u(p.limit.map_or(u64::MAX, |l| l as u64));
                     s.trace.u(p.nchunks as u64);
                     for c in 0..p.nchunks.min(crate::arena::world::MAX_CHUNKS_OBS) {
-                        s.trace.u(w.rel(p.chunks[c].0) as u64);
+                        s.trace.u(if canon { w.rel_canon(p.chunks[c].0) } else { w.rel(p.chunks[c].0) } as u64);
                         s.trace.u(p.chunks[c].1 as u64);
                     }
                     if let Some(b) = w.live.last() {
-                        s.trace.u(w.rel(b.addr) as u64);
+                        s.trace.u(if canon { w.rel_canon(b.addr) } else { w.rel(b.addr) } as u64);
                         s.trace.u(b.size as u64);
                     }
                     s.trace.u(w.live.len() as u64);
@@ -491,7 +492,15 @@ pub fn prefix_histories(thorough: bool) -> Vec<Vec<crate::mc::Step<PAct>>> {
         }
         v
     };
-    all_histories(&alpha, if thorough { 4 } else { 3 })
+    let mut all = all_histories(&alpha, if thorough { 4 } else { 3 });
+    // an arena in the *same slab as the probes* that grows to nine chunks (448 ... 131 008 bytes), is observed
+    // and dropped: the probes then run at addresses a dead many-chunk arena used before
+    let mut grow: Vec<Step<PAct>> = vec![Step::new(PAct::Create { who: 1, cap: 0 })];
+    for size in [1usize, 449, 961, 1985, 4033, 8129, 16321, 32705, 65473] {
+        grow.push(Step::new(PAct::Layout { who: 1, size, al: 0 }));
+    }
+    all.push(grow);
+    all
 }
 
 pub fn probe_histories(thorough: bool) -> Vec<Vec<crate::mc::Step<PAct>>> {
@@ -510,7 +519,14 @@ pub fn probe_histories(thorough: bool) -> Vec<Vec<crate::mc::Step<PAct>>> {
             Step::new(PAct::Reset { who }),
         ]
     };
-    all_histories(&alpha, if thorough { 5 } else { 4 })
+    // first: arenas whose first chunk has exactly the layout of another arena's 9th / 8th chunk (they run right after
+    // the prefix, while the allocator still remembers the addresses the prefix arena gave back)
+    let mut all: Vec<Vec<Step<PAct>>> = Vec::new();
+    for cap in [131_008u32, 65_472] {
+        all.push(vec![Step::new(PAct::Create { who: 1, cap }), Step::new(PAct::Layout { who: 1, size: 8, al: 0 })]);
+    }
+    all.extend(all_histories(&alpha, if thorough { 5 } else { 4 }));
+    all
 }
 
 impl PairModel {
